@@ -165,11 +165,19 @@ type searchCall struct {
 	err        error
 }
 
-func newSimCluster(n int) *simCluster {
+func newSimCluster(n int) *simCluster { return newSimClusterAt(n, "") }
+
+// newSimClusterAt: with dir != "" every node keeps its Badger database on disk under dir/node-<id>
+// (so that a second cluster over the same directory is a restart of the same nodes).
+func newSimClusterAt(n int, dir string) *simCluster {
 	c := &simCluster{cat: &catalogue{}, nodes: map[uint64]*simNode{}, dmFail: map[[2]uint64]error{}}
 	for i := 1; i <= n; i++ {
 		id := uint64(i)
-		db, err := badger.Open(badger.DefaultOptions("").WithInMemory(true).WithLogger(nil).WithMaxTableSize(1 << 20).WithNumMemtables(2))
+		opts := badger.DefaultOptions("").WithInMemory(true).WithLogger(nil).WithMaxTableSize(1 << 20).WithNumMemtables(2)
+		if dir != "" {
+			opts = badger.DefaultOptions(fmt.Sprintf("%s/node-%d", dir, id)).WithLogger(nil).WithSyncWrites(false).WithMaxTableSize(1 << 20).WithNumMemtables(2).WithValueLogFileSize(1 << 22)
+		}
+		db, err := badger.Open(opts)
 		if err != nil {
 			panic(err)
 		}
@@ -222,6 +230,15 @@ func (c *simCluster) Close() {
 	}
 	// 4. the in-memory databases are small (1 MiB tables) and are left to the garbage collector:
 	//    closing them while a stopped group's last iteration is still inside Badger crashes the process
+}
+
+// CloseDBs additionally closes the databases (needed before the same directory is reopened).
+func (c *simCluster) CloseDBs() {
+	c.Close()
+	time.Sleep(100 * time.Millisecond)
+	for _, n := range c.nodes {
+		n.db.Close()
+	}
 }
 
 // waitFor polls cond up to d.
